@@ -34,6 +34,8 @@ func gateClass(point string) string {
 		return "srv"
 	case strings.HasPrefix(point, "unary.cli."):
 		return "cli"
+	case point == "unary.copy":
+		return "cpy"
 	// httpgrpc streams: one class per goroutine of the model
 	case strings.HasPrefix(point, "http.send."):
 		return "snd"
@@ -70,7 +72,12 @@ func init() {
 	}
 	inprocgrpc.VerifHook = hook
 	httpgrpc.VerifHook = hook
+	gateHook = hook
 }
+
+// gateHook: the same hook for schedule points inside the harness's own
+// stand-ins (the gated cloner)
+var gateHook func(point string)
 
 func (s *gateSet) enable(points []string) {
 	s.mu.Lock()
